@@ -368,6 +368,56 @@ def _task_interleave(task):
     return t
 
 
+SIBLING_LITERALS = [1, 1.0, True, "1", "1.0", "True", "01", 2]
+SIBLING_MODES = [b"1", b"1.0", b"True", b"01", b"2", b"2.0"]
+
+
+def _sibling_definition(literal):
+    """Header + a 5-byte text field MODE + one inheritor selected by MODE == literal, where the literal is handed to the public constructor as
+    a Python number or as text; a number means its str()."""
+    from space_packet_parser.xtce import comparisons, containers, definitions, encodings, parameter_types, parameters
+    hdr = [("VERSION", 3), ("TYPE", 1), ("SEC_HDR_FLG", 1), ("PKT_APID", 11), ("SEQ_FLGS", 2), ("SRC_SEQ_CTR", 14), ("PKT_LEN", 16)]
+    entries = [parameters.Parameter(nm, parameter_types.IntegerParameterType(nm + "_T", encodings.IntegerDataEncoding(nb, "unsigned"))) for nm, nb in hdr]
+    entries.append(parameters.Parameter("MODE", parameter_types.StringParameterType(
+        "MODE_T", encodings.StringDataEncoding(fixed_raw_length=40, termination_character="00"))))
+    value = parameters.Parameter("VALUE", parameter_types.IntegerParameterType("VALUE_T", encodings.IntegerDataEncoding(8, "unsigned")))
+    root = containers.SequenceContainer("CCSDSPacket", entries, abstract=True, inheritors=["Science"])
+    sci = containers.SequenceContainer("Science", [value], base_container_name="CCSDSPacket", restriction_criteria=[comparisons.Comparison(literal, "MODE")])
+    return definitions.XtcePacketDefinition([root, sci])
+
+
+def _task_siblings(task):
+    """Definitions that differ only in how the same-looking literal was handed over (1, 1.0, True, '1', ...), their generators advanced in
+    lock step over one stream, in the given order of definitions: each sees exactly the packets whose MODE text is str(its literal)."""
+    t = Tally()
+    order = task["order"]
+    stream = b"".join(framing.mk_packet(m.ljust(5, b"\x00") + bytes([i]), apid=11, seqcount=i) for i, m in enumerate(SIBLING_MODES))
+    with observed_warnings(), case_alarm(120):
+        defs = [_sibling_definition(SIBLING_LITERALS[i]) for i in order]
+        gens = [d.packet_generator(stream, yield_unrecognized_packet_errors=True) for d in defs]
+        got = [[] for _ in defs]
+        for _ in SIBLING_MODES:
+            for gi, g in enumerate(gens):
+                try:
+                    it = next(g)
+                    got[gi].append("error" if isinstance(it, Exception) else ("packet", it["VALUE"].raw_value if "VALUE" in it else None))
+                except StopIteration:
+                    got[gi].append("stop")
+                except Exception as e:  # noqa: BLE001
+                    got[gi].append("raised:" + type(e).__name__)
+                t.transitions += 1
+        for gi, i in enumerate(order):
+            want = [("packet", k) if m.decode() == str(SIBLING_LITERALS[i]) else "error" for k, m in enumerate(SIBLING_MODES)]
+            t.evals += 1
+            t.traces += 1
+            if got[gi] != want:
+                t.violation({"kind": "sibling-definitions-interfere", "literal": repr(SIBLING_LITERALS[i])},
+                            {"siblings": True, "order": list(order), "literal": repr(SIBLING_LITERALS[i])}, expected=want, observed=got[gi],
+                            note="a definition's generator, advanced in lock step with generators of sibling definitions, does not yield what its own literal selects")
+    t.nontrivial += 1
+    return t
+
+
 def run(ctx):
     n = len(palette_packets())
     seqs = [s for k in range(1, 5) for s in itertools.product(range(n), repeat=k)]
@@ -380,6 +430,9 @@ def run(ctx):
     itasks += [{"combos": [c], "max_items": 2 if ctx.quick else 3} for c in triples]
     t2 = fan_out(_task_interleave, itasks, jobs=ctx.jobs, seed=ctx.seed)
     tally.merge(t2)
+    # one worker process per order, so that each order is the first use of the library in its process
+    orders = [p for p in itertools.permutations(range(len(SIBLING_LITERALS)), 3)][:: (4 if ctx.quick else 1)] + [tuple(range(len(SIBLING_LITERALS))), tuple(reversed(range(len(SIBLING_LITERALS))))]
+    tally.merge(fan_out(_task_siblings, [{"order": o} for o in orders], jobs=ctx.jobs, seed=ctx.seed))
     coverage = {
         "states": tally.states,
         "transitions": tally.transitions,
@@ -391,7 +444,8 @@ def run(ctx):
                   "vs. per-packet solo results on fresh definitions; (ii) k=2: every ordered pair of 7 generators "
                   "(two with combine_segmented_packets, one over a scripted socket, one with a per-call root container) x ALL lattice-path interleavings of their next() calls up to exhaustion, and one generator abandoned (closed, or dropped and collected) after every number of items while the other runs on; "
                   f"k=3: {len(triples)} triples with <= {2 if ctx.quick else 3} steps each, all interleavings; (iii) definition canon + written XML unchanged; "
-                  "(iv) package footprint unchanged"),
+                  "(iv) package footprint unchanged; (v) sibling definitions built with the public constructors that differ only in how the discriminating literal was handed over "
+                  f"(1, 1.0, True, '1', '1.0', 'True', '01', 2), generators advanced in lock step over one stream: {len(orders)} orders of 3 (and all 8 in both directions)"),
         "rule": ("one evaluation = one stream run or one complete interleaving; states = distinct (generator combination, position vector) pairs; "
                  "transitions = next() calls; non-trivial = streams with >= 2 distinct packets and generator combinations"),
     }
@@ -406,6 +460,9 @@ def replay(case):
             if v["case"].get("opts") == case.get("opts"):
                 return v
         return t.violations[0] if t.violations else None
+    if case.get("siblings"):
+        t = _task_siblings({"order": tuple(case["order"])})
+        return next((v for v in t.violations if v["case"]["literal"] == case["literal"]), None)
     if "combo" in case:
         t = _task_interleave({"combos": [tuple(case["combo"])], "max_items": case.get("max_items", 6)})
         return t.violations[0] if t.violations else None
